@@ -136,6 +136,13 @@ impl SwiftField for Field25P {
         let account = parse_max_length(lines[0], 35, "Field 25P account")?;
         parse_swift_chars(&account, "Field 25P account")?;
 
+        // Nothing may follow the identifier code: an extra line is not part of the format
+        if lines.len() > 2 {
+            return Err(ParseError::InvalidFormat {
+                message: "Field 25P has an unexpected line after the BIC".to_string(),
+            });
+        }
+
         // Parse BIC (second line if present, otherwise might be concatenated)
         let bic = if lines.len() > 1 {
             parse_bic(lines[1])?
